@@ -21,6 +21,7 @@ const (
 	Plain
 	Single
 	Double
+	Literal // block scalar "|" (only in block context; falls back to Double elsewhere)
 )
 
 type Node struct {
@@ -177,6 +178,9 @@ func (e *emitter) scalar(n *Node, flow bool) {
 		return
 	}
 	st := n.Style
+	if st == Literal {
+		st = Double
+	}
 	if st == Auto || st == Plain {
 		if needsQuote(n.Val, flow) {
 			st = Single
@@ -259,6 +263,27 @@ func empty(n *Node) bool { return n.Kind != Scalar && len(n.Vals) == 0 }
 
 // block emits node whose first token starts at the current cursor, with continuation lines at indent.
 func (e *emitter) block(n *Node, indent int) {
+	if n.Kind == Scalar && n.Style == Literal && n.Raw == "" && n.Tag == "" && literalOK(n.Val) {
+		// block scalar: the indicator sits where the scalar would start, content lines follow
+		n.Line, n.Col = e.line, e.col
+		n.ContentCol = 0
+		if strings.HasSuffix(n.Val, "\n") {
+			e.write("|\n")
+		} else {
+			e.write("|-\n")
+		}
+		body := strings.TrimSuffix(n.Val, "\n")
+		pad := strings.Repeat(" ", indent+e.lay.Indent)
+		for _, l := range strings.Split(body, "\n") {
+			if l == "" {
+				e.write("\n")
+			} else {
+				e.write(pad + l + "\n")
+			}
+		}
+		n.EndCol = n.Col + 1
+		return
+	}
 	if n.Kind == Scalar || n.Flow || empty(n) {
 		e.flow(n)
 		e.write("\n")
@@ -307,4 +332,26 @@ func Emit(root *Node, lay Layout) string {
 	}
 	e.block(root, 0)
 	return e.b.String()
+}
+
+// literalOK: the value can be written as a block scalar without changing it.
+func literalOK(v string) bool {
+	if v == "" || strings.HasPrefix(v, " ") || strings.HasPrefix(v, "\n") || hasCtlExceptNL(v) {
+		return false
+	}
+	for _, l := range strings.Split(v, "\n") {
+		if strings.HasSuffix(l, " ") || strings.HasPrefix(l, " ") || strings.HasPrefix(l, "\t") {
+			return false
+		}
+	}
+	return !strings.HasSuffix(v, "\n\n")
+}
+
+func hasCtlExceptNL(v string) bool {
+	for _, r := range v {
+		if r != '\n' && (r < 0x20 || r == 0x7f || r == 0x85 || r == 0x2028 || r == 0x2029 || r == 0xfeff) {
+			return true
+		}
+	}
+	return false
 }
